@@ -16,7 +16,7 @@ def _nontrivial(sc, res):
 
 gen, run = S.make_check(PROP, KNOBS, _nontrivial)
 shrink = S.shrink
-SEEDS  = {'quick': 500, 'thorough': 15000}
+SEEDS  = {'quick': 1000, 'thorough': 15000}
 BUDGET = {'quick': 280, 'thorough': 3300}
 BLOCK  = 10
 INFO   = dict(S.INFO)
